@@ -81,8 +81,10 @@ def make_body(scn):
                     c.set_combine_stderr(True)
                 combined.add(True)
 
+        race_errors = []
         while True:
-            if special and spos == done:
+            racing = bool(special) and special[0] == "rekey_race" and spos == done
+            if special and spos == done and not racing:
                 do_special()
                 s.quiesce()
             pending = [q for q in seqs if q[2]]
@@ -92,10 +94,42 @@ def make_body(scn):
             q = pending[k]
             data = q[2].pop(0)
             sv = pairs[q[0]][1]
-            (sv.sendall if q[1] == "out" else sv.sendall_stderr)(data)
+            fn = sv.sendall if q[1] == "out" else sv.sendall_stderr
+            if racing:
+                # this send races the start of a re-exchange initiated on the sender's side: all schedules
+                # within the delay bound (the sender goes first by default)
+                def snd():
+                    try:
+                        fn(data)
+                    except Exception as e:  # noqa
+                        race_errors.append("send raised %s" % type(e).__name__)
+
+                def rk():
+                    try:
+                        p.ts.renegotiate_keys()
+                    except Exception as e:  # noqa
+                        race_errors.append("renegotiate_keys raised %s" % type(e).__name__)
+                t1, t2 = vthreading.Thread(target=snd), vthreading.Thread(target=rk)
+                # the wire is held while the two threads race, so that their order on the wire is decided
+                # by the schedule alone (not by how fast the peer answers); then everything is released
+                p.c2s.gated = p.s2c.gated = True
+                s.branching = True
+                t1.start()
+                t2.start()
+                s.quiesce()
+                s.branching = False
+                p.c2s.gated = p.s2c.gated = False
+                p.s2c.deliver_all()
+                p.c2s.deliver_all()
+                t1.join()
+                t2.join()
+            else:
+                fn(data)
             order.append((q[0], q[1], len(data)))
             done += 1
             s.quiesce()
+        if race_errors:
+            raise RuntimeError("; ".join(race_errors))
         for i, st in enumerate(statuses):
             pairs[i % len(pairs)][1].send_exit_status(st)
         for _, sv in pairs:
@@ -174,6 +208,89 @@ def is_merge(g, a, b):
     return len(a) in frontier or any(len(g) - i == len(b) and i == len(a) for i in frontier)
 
 
+# ------------------------------------------------------------------ combine_stderr racing arriving data
+from paramiko import channel as pchannel  # noqa: E402
+from paramiko.message import Message  # noqa: E402
+import paramiko  # noqa: E402
+
+RACE_TRACE = {pchannel.__file__: {"set_combine_stderr", "_feed_extended", "_feed"}}
+
+
+class _StubTransport:
+    def _unlink_channel(self, chanid):
+        pass
+
+
+def make_race_body(rscn):
+    pre_err, feeds = rscn
+
+    def body(s):
+        chan = paramiko.Channel(1)
+        chan.transport = _StubTransport()
+        chan.settimeout(0.0)
+        if pre_err:
+            chan.in_stderr_buffer.feed(b"O" * pre_err)
+        payloads = [bytes([0x41 + i]) * 3 for i in range(feeds)]
+
+        def feeder():
+            for pl in payloads:
+                m = Message()
+                m.add_int(1)
+                m.add_string(pl)
+                m.rewind()
+                chan._feed_extended(m)          # what the transport thread does for EXTENDED_DATA
+
+        def switcher():
+            chan.set_combine_stderr(True)
+        a, b = vthreading.Thread(target=switcher), vthreading.Thread(target=feeder)
+        s.branching = True
+        s.line_points = True
+        a.start()
+        b.start()
+        a.join()
+        b.join()
+        s.branching = False
+        s.line_points = False
+        for t in (a, b):
+            if t._vt_rec.obj is not None:
+                raise t._vt_rec.obj
+        out = chan.in_buffer.empty()
+        err = chan.in_stderr_buffer.empty()
+        expect = b"O" * pre_err + b"".join(payloads)
+        return bytes(out), bytes(err), expect
+    return body
+
+
+def run_race(item, acc):
+    tier, rscn, bound = item
+    body = make_race_body(rscn)
+    seen = set()
+
+    def on_exec(ex):
+        acc.ev()
+        if ex.outcome != "ok":
+            acc.violation("combine-race:harness:%s" % ex.outcome, {"scn": rscn, "err": repr(ex.error)[:200]},
+                          {"race": rscn, "choices": ex.choices})
+            return
+        out, err, expect = ex.value
+        if (out, err) not in seen:
+            seen.add((out, err))
+            acc.nt(("combine-race", rscn, out, err))
+        v = None
+        if sorted(out + err) != sorted(expect):
+            v = "combine-race:bytes-lost-or-duplicated"
+        elif err:
+            v = "combine-race:stderr-data-not-in-stdout-although-combining-is-on"
+        if v:
+            acc.violation(v, {"scn": rscn, "stdout": out.decode(), "stderr_left": err.decode(), "choices": ex.choices},
+                          {"race": rscn, "choices": ex.choices})
+    res = explore.explore(body, bound, "preempt", cap=20000, on_exec=on_exec, sched_kw={"trace_files": RACE_TRACE})
+    acc.count("combine_race_schedules", res.executions)
+    if len(acc.samples) < 5:
+        acc.sample({"combine_race": {"stderr_buffered_before": rscn[0], "arriving_packets": rscn[1]},
+                    "schedules": res.executions, "end_states(stdout,stderr_left)": [[a.decode(), b.decode()] for a, b in sorted(seen)]})
+
+
 def scenarios(tier):
     out = []
     quick = tier == "quick"
@@ -189,6 +306,8 @@ def scenarios(tier):
         for kind in ("rekey", "rekey_s", "combine"):
             for pos in range(nops + 1):
                 out.append(((ch,), (kind, pos), False, 1 << 20, (1,)))
+        for pos in ((0,) if quick else range(nops)):
+            out.append(((ch,), ("rekey_race", pos), False, 1 << 20, ()))
     for chs in (two[:1] if quick else two):
         nops = sum(len(c[0]) + len(c[1]) for c in chs)
         out.append((chs, None, False, 1 << 20, (255, 1 << 31)))
@@ -227,7 +346,8 @@ def run_scn(item, acc):
             acc.violation("%s:%s%s" % (v[0], special, ":compressed" if scn[2] else ""),
                           {"scn": scn, "why": v[1], "order": list(order), "choices": ex.choices},
                           {"scn": scn, "choices": ex.choices})
-    res = explore.explore(body, 0, "delay", cap=6000, on_exec=on_exec, sched_kw={"horizon": S.EPOCH + 300})
+    bound = 1 if (scn[1] and scn[1][0] == "rekey_race") else 0
+    res = explore.explore(body, bound, "delay", cap=6000, on_exec=on_exec, sched_kw={"horizon": S.EPOCH + 300})
     acc.count("interleavings", res.executions)
     acc.count("scenarios")
     if res.capped:
@@ -248,6 +368,8 @@ def main(tier):
     items = [(tier, s) for s in scenarios(tier)]
     ck.extra["scenarios"] = len(items)
     ck.merge(core.pmap(items, run_scn))
+    races = [(tier, (pre, n), 2 if tier == "quick" else 3) for pre in (0, 2) for n in (1, 2)]
+    ck.merge(core.pmap(races, run_race))
     for n in ck.acc.notes:
         ck.cap_hit(n)
     return ck.finish()
@@ -255,11 +377,15 @@ def main(tier):
 
 def replay(rec):
     r = rec["replay"]
+    if "race" in r:
+        ex = explore.replay(make_race_body(tuple(r["race"])), r["choices"], "preempt", {"trace_files": RACE_TRACE})
+        print(ex.outcome, ex.error, ex.value)
+        return 1 if (ex.outcome != "ok" or ex.value[1] or sorted(ex.value[0]) != sorted(ex.value[2])) else 0
 
     def tup(x):
         return tuple(tup(y) for y in x) if isinstance(x, list) else x
     scn = tup(r["scn"])
-    ex = explore.replay(make_body(scn), r["choices"], "delay", {"horizon": S.EPOCH + 300})
+    ex = explore.replay(make_body(scn), r["choices"], "delay", {"horizon": S.EPOCH + 300})  # bound irrelevant for replay
     print(ex.outcome, ex.error)
     if ex.outcome == "ok":
         got, expect, order, combined, sts = ex.value
